@@ -1,11 +1,11 @@
 ----------------------------- MODULE MC_Resolve -----------------------------
 EXTENDS Resolve, Json, IOUtils
 CONSTANTS Mode, N, Part, Parts
-Comp == [k : 0..3, half : BOOLEAN, loop : {"p", "a", "N"}, act : 1..2, fits : BOOLEAN]
+Comp == [k : 0..3, half : BOOLEAN, loop : {"p", "a", "N"}, act : 1..2, fits : BOOLEAN, wrap : BOOLEAN]
 Data == IF Mode = "judge" THEN JsonDeserialize(IOEnv.TRACE_FILE) ELSE <<>>
 VARIABLES cs, n
 H(s) == LET RECURSIVE G(_) G(i) == IF i = 0 THEN 7 ELSE (G(i - 1) * 31 + s[i].k * 5 + s[i].act * 3 + (IF s[i].half THEN 1 ELSE 0)
-                                         + (IF s[i].fits THEN 2 ELSE 0) + (IF s[i].loop = "a" THEN 11 ELSE IF s[i].loop = "N" THEN 17 ELSE 0)) % 9973
+                                         + (IF s[i].fits THEN 2 ELSE 0) + (IF s[i].wrap THEN 23 ELSE 0) + (IF s[i].loop = "a" THEN 11 ELSE IF s[i].loop = "N" THEN 17 ELSE 0)) % 9973
         IN G(Len(s)) % Parts
 Init == \/ Mode = "emit" /\ n = 0 /\ cs \in [1..N -> Comp] /\ H(cs) = Part
         \/ Mode = "judge" /\ n \in 1..Len(Data) /\ cs = <<>>
